@@ -1,7 +1,7 @@
 from registry_common import COMMON_ASSUME
 
 ENTRY = dict(
-        prop_modules=["C08", "C08Lifetime"],
+        prop_modules=["C08", "C08Lifetime", "C08Routes"],
         title="Set/confirm/retry: requested value only, bounded attempts, truthful result",
         design_ref="DESIGN.md section 6 / C08",
         technique="Lean 4 theorems over all event histories of the set/confirm/retry machine SetM (call, report, clock advance, timer, executor answer) "
@@ -15,7 +15,7 @@ ENTRY = dict(
             "one made while it is on by none), `refresh_iff_tracked` / `refresh_iff_untracked` (its corollaries for a constant flag), "
             "`true_sound` (True only after a report != previous value received while the call ran), `false_sound` (False only after exactly `retries` set requests "
             "and only stale reports), `nothing_after_return`; over the parameter's LIFETIME (machine SetL = every running call is a one-call machine stepping on the shared fields; any number of sequential or overlapping calls): `rejected_call_inert`, `tx_value_each_call`, `tx_count_each_call`, `only_running_calls_transmit`, `sequential_call_is_one_call`, `quiet_after_return`, `true_sound_each_call`, `false_sound_each_call`, `overlap_true_unsound` (what does not hold); and `holds`: the executable statement C08.spec (a monitor that sees only events and outputs) accepts every observation of the machine. The machine is tied to parameter.py and the four parameter subclasses by running both on generated histories "
-            "(random; exhaustive words over {stale, confirming, third value, timer[, executor answer]} for retries 0..3) with reports entering through "
+            "(random; exhaustive words over {stale, confirming, third value, timer[, executor answer]} for retries 0..3; every public set route x argument form x parameter class) with reports entering through "
             "device.handle_frame(<parameters response bytes>), and C08.spec is evaluated by the Lean driver on every implementation observation."),
         level_note="Trusted: Lean kernel; SetM <-> parameter.py tie is differential (event histories under the virtual loop); asyncio (sleep, Queue, tasks) exercised, not modelled. "
                    "The display->raw front of set() is tied through the C17/C06 model: the rig calls set(<display value>) on scaled rows and the requested raw value is Lean's toRaw.",
@@ -36,6 +36,8 @@ ENTRY = dict(
             "returns False only after `retries` unconfirmed transmissions": "theorem (false_sound)",
             "every interleaving of stale / confirming / unrelated reports with the retry timer": "theorem (histories are universally quantified); model <-> code by correspondence",
             "defaults retries=5, timeout=5.0": "table (defaults, from the translator)",
+            "ROUTES: every public set route (Number/Switch set, set_nowait and the 8 subclasses, turn_on/off(+_nowait), Device.set/set_nowait on EcoMAX/Mixer/Thermostat, EcoMAX.turn_on/off(+_nowait)) x every argument form forwards (value, retries, timeout) unchanged to the set machine": "table (Gen.setRoutes: the translator CALLS each route on a probe whose Parameter.set records its arguments) + theorem (routes_probe_ok, routes_complete, route_forwards, route_tx) + correspondence (harness/setm.py ROUTES: each route x argument form x parameter class driven with non-default, mutually different retries/timeout; SetM run with the CALLER's arguments is the oracle)",
+            "Device.set / set_nowait `timeout`": "is the time to wait for the parameter to exist (passed to Device.get), NOT the retry interval: the set machine then runs with the default interval (route table: owner 1 rows have timeout source 'constant 5000'; a device-level wait reaching the machine is refuted by routes_probe_ok)",
         },
         assumptions=COMMON_ASSUME + [
             "the tracking flag only changes between the machine's steps (a frame-versions announcement is one event)",
